@@ -464,10 +464,12 @@ def exec_cases(item):
                 if r["chain2"] is not None and r["chain2"] != form["e"]:
                     paramdiff += 1
             continue
-        kbr = [k for rr, k in case["kbrep"] if rr == rep]      # recorded classes of this representation only
-        mism.append({"kind": "case", "chain": case["chain"], "A": case["arr"], "rep": rep, "kb": case["kb"] + kbr,
+        # recorded classes of this representation only, with the outcome of the code-shaped model
+        kbr = [(k, oc) for rr, k, oc in case["kbrep"] if rr == rep]
+        mism.append({"kind": "case", "chain": case["chain"], "A": case["arr"], "rep": rep,
+                     "kb": case["kb"] + [k for k, _ in kbr],
                      "known_shape": (bool(case["kb"]) and exp == "Rejected" and r["oc"] == "ok")
-                     or (bool(kbr) and exp == "ok" and r["oc"] == "ok"),
+                     or (bool(kbr) and exp == "ok" and all(r["oc"] == oc for _, oc in kbr)),
                      "expected": {"oc": exp, "accept": case["acc"] if exp == "ok" else []},
                      "observed": {"oc": r["oc"], "B": r["B"], "ser_eq": r["ser_eq"]}})
     return {"mismatch": mism, "n": n, "formdiff": formdiff, "paramdiff": paramdiff, "per_rep": per_rep}
